@@ -253,7 +253,7 @@ Section K.
             destruct (emit_results (S (length (ds s3))) s3) as [u4 s4|k p s4| |]; cbn [res_all] in *; auto;
               destruct H4 as [X1 _]; exact X1.
           * exact H3.
-        + eapply Kw_vm; eassumption.
+        + assert (H1 : Kw s1) by (eapply Kw_vm; eassumption). exact H1.
     Qed.
 
     (* closing a meta context opened by this source *)
@@ -286,7 +286,11 @@ Section K.
           * split; [exact X1|]. rewrite X2, Sh3. exact ShE.
         + split; [exact H3|]. unfold shape. cbn [set_cx cx nested map].
           unfold shape in Sh3. cbn [map] in Sh3. apply (f_equal (@tl _)) in Sh3. cbn [tl] in Sh3. rewrite Sh3. exact Sh'.
-      - split; [eapply Kw_vm; eassumption|]. rewrite (shape_vm _ _ V). exact ShE.
+      - assert (H1 : Kw s1) by (eapply Kw_vm; eassumption).
+        split; [exact H1|].
+        destruct (vmrel_keeps _ _ V) as (_ & _ & _ & _ & _ & K6 & K7).
+        unfold shape. cbn [set_nested cx nested map]. rewrite K6. cbn [set_nested nested map].
+        rewrite (cshape_noip _ _ K7). apply shape_ok_E. exact Sh.
     Qed.
   End Close.
 
